@@ -15,6 +15,27 @@
 #define VERIF_GHOST(...) __VA_ARGS__
 #endif
 
+/*
+ * Named anchors: some in-place annotations only name their loop ("VERIF_LOOP(VERIF_INV_<FUNCTION>_<LOOP>)");
+ * the unit that proves the function defines the invariant text before including the real file.  Units that do not
+ * (they replace the function by its contract, or unwind the loop) get the empty default.
+ */
+#ifndef VERIF_INV_CRC32_BODY_ALIGN
+#define VERIF_INV_CRC32_BODY_ALIGN
+#endif
+#ifndef VERIF_INV_CRC32_BODY_WORDS
+#define VERIF_INV_CRC32_BODY_WORDS
+#endif
+#ifndef VERIF_INV_CRC32_BODY_TAIL
+#define VERIF_INV_CRC32_BODY_TAIL
+#endif
+#ifndef VERIF_GHOST_CRC32_BODY_BYTE
+#define VERIF_GHOST_CRC32_BODY_BYTE
+#endif
+#ifndef VERIF_GHOST_CRC32_BODY_WORDS
+#define VERIF_GHOST_CRC32_BODY_WORDS
+#endif
+
 /* ghost state referenced by the in-place loop contracts (defined by each unit) */
 #ifndef VERIF_NATIVE
 extern unsigned long long verif_k;	/* ghost index: one arbitrary bit / byte / slot */
